@@ -5,6 +5,7 @@
 #include "tuple_a_not_b.hpp"
 #include "tuple_jaccard_similarity.hpp"
 #include "array_of_doubles_sketch.hpp"
+#include "theta_sketch.hpp"
 using namespace datasketches;
 struct sum_policy { void operator()(double& a, const double& b) const { a += b; } };
 void all() {
@@ -21,6 +22,8 @@ void all() {
   auto u = tuple_union<double, sum_policy>::builder(sum_policy()).build(); u.update(s); u.update(cs); u.update(std::move(cs2)); auto ur = u.get_result(true); u.reset();
   tuple_intersection<double, sum_policy> i; i.update(s); i.update(cs); i.update(std::move(d1)); auto ir = i.get_result(true);
   tuple_a_not_b<double> anb; auto r1 = anb.compute(s, cs, true); auto r2 = anb.compute(std::move(d2), s);
+  // theta sketches as operands
+  auto ts = update_theta_sketch::builder().build(); ts.update(1); compact_tuple_sketch<double> ct(ts, 1.0, true); compact_tuple_sketch<double> ct2(ts.compact(), 1.0, false); u.update(ct); i.update(ct2);
   // array of doubles
   auto as = update_array_of_doubles_sketch::builder(2).build(); std::vector<double> vals(2, 1.0); as.update(uint64_t(1), vals); as.update(std::string("a"), vals.data());
   auto acs = as.compact(true); auto ab = acs.serialize(); auto abh = acs.serialize(8); std::stringstream ass; acs.serialize(ass);
